@@ -3,7 +3,40 @@ import argparse, importlib, os, sys, traceback
 sys.path.insert(0, os.path.dirname(os.path.abspath(__file__)))
 import vlib
 
+def _own_group():
+    """run in a process group of our own and, on the way out (normal exit or SIGTERM from an outer `timeout`), kill
+    whatever descendants are still alive in it - a harness child that outlived its watchdog must not keep
+    spinning after the check has ended"""
+    import atexit, signal
+    try:
+        os.setpgrp()
+    except OSError:
+        return
+    me = os.getpid()
+    if os.getpgrp() != me:
+        return
+
+    def reap(*_):
+        for d in os.listdir("/proc"):
+            if not d.isdigit() or int(d) == me:
+                continue
+            try:
+                with open("/proc/%s/stat" % d) as f:
+                    st = f.read()
+                if int(st[st.rindex(")") + 2:].split()[2]) == me:
+                    os.kill(int(d), signal.SIGKILL)
+            except (OSError, ValueError, IndexError):
+                pass
+    atexit.register(reap)
+
+    def on_term(sig, frm):
+        reap()
+        os._exit(143)
+    signal.signal(signal.SIGTERM, on_term)
+
+
 def main():
+    _own_group()
     ap = argparse.ArgumentParser()
     ap.add_argument("prop")
     ap.add_argument("--tier", default=os.environ.get("VERIF_TIER", "quick"), choices=["quick", "thorough"])
